@@ -497,8 +497,8 @@ rcp(const SIMDVector<std::complex<double>,simd_abi::avx512> &a) {
 #else
     __m512d den = _mm512_add_pd(_mm512_mul_pd(a.value_r,a.value_r),_mm512_mul_pd(a.value_i,a.value_i));
 #endif
-    out.value_r = _mm512_div_pd(out.value_r,den);
-    out.value_i = _mm512_neg_pd(_mm512_div_pd(out.value_i,den));
+    out.value_r = _mm512_div_pd(a.value_r,den);
+    out.value_i = _mm512_neg_pd(_mm512_div_pd(a.value_i,den));
     return out;
 }
 
@@ -1013,8 +1013,8 @@ rcp(const SIMDVector<std::complex<double>,simd_abi::avx> &a) {
 #else
     __m256d den = _mm256_add_pd(_mm256_mul_pd(a.value_r,a.value_r),_mm256_mul_pd(a.value_i,a.value_i));
 #endif
-    out.value_r = _mm256_div_pd(out.value_r,den);
-    out.value_i = _mm256_neg_pd(_mm256_div_pd(out.value_i,den));
+    out.value_r = _mm256_div_pd(a.value_r,den);
+    out.value_i = _mm256_neg_pd(_mm256_div_pd(a.value_i,den));
     return out;
 }
 
@@ -1548,8 +1548,8 @@ rcp(const SIMDVector<std::complex<double>,simd_abi::sse> &a) {
 #else
     __m128d den = _mm_add_pd(_mm_mul_pd(a.value_r,a.value_r),_mm_mul_pd(a.value_i,a.value_i));
 #endif
-    out.value_r = _mm_div_pd(out.value_r,den);
-    out.value_i = _mm_neg_pd(_mm_div_pd(out.value_i,den));
+    out.value_r = _mm_div_pd(a.value_r,den);
+    out.value_i = _mm_neg_pd(_mm_div_pd(a.value_i,den));
     return out;
 }
 
